@@ -163,6 +163,31 @@ def execute(case):
       obs['registry_memo_subset'] = isinstance(got, list) and set(got) <= set(want) and len(got) > 1
     else:
       obs['registry_basic_complete'] = isinstance(got, list) and sorted(got) == sorted(want)
+  # a node type registered AFTER a registry (and the registry falling back on it) has already
+  # been asked about it: the traversal must follow the registries as they are now
+  Late = type('Late', (), {'__init__': lambda self, a, b: (setattr(self, 'first', a), setattr(self, 'second', b)) and None})
+  parent = daglish.NodeTraverserRegistry(use_fallback=True)
+  child = daglish.NodeTraverserRegistry(use_fallback=parent)
+  late_root = [Late(root, 7), 8]
+  try:
+    before_n = len(list(daglish.iterate(late_root, memoized=False, registry=child)))
+    leaf_before = not child.is_traversable_type(Late)
+    parent.register_node_traverser(
+        Late, flatten_fn=lambda p: ((p.first, p.second), None), unflatten_fn=lambda values, _: Late(*values),
+        path_elements_fn=lambda p: (daglish.Attr('first'), daglish.Attr('second')))
+    after = list(daglish.iterate(late_root, memoized=False, registry=child))
+    n_root = len(list(daglish.iterate(root, memoized=False)))
+    rebuild_fn = lambda v, s: s.map_children(v)
+    rebuilt_late = rebuild_fn(late_root, daglish.BasicTraversal(
+        traversal_fn=rebuild_fn, root_obj=late_root, registry=child).initial_state())
+    obs['late_registration'] = (leaf_before and before_n == 3 and len(after) == 3 + 2 + n_root - 1 + 0
+                                and any(v is root for v, _ in after)
+                                and rebuilt_late[0] is not late_root[0]
+                                and child.is_traversable_type(Late))
+    if obs['late_registration'] is not True:
+      obs['late_registration'] = [leaf_before, before_n, len(after), n_root]
+  except Exception as e:
+    obs['late_registration'] = f'raised {type(e).__name__}: {e}'[:200]
   # legacy API: identity traversal and paths
   try:
     # traverse_with_path rebuilds without preserving sharing (documented); memoized_traverse
@@ -273,6 +298,9 @@ def oracle(case, real):
               'path': path, 'observed': allp, 'expected': expect}
   if real.get('registry_basic_complete') is False:
     return {'what': 'un-memoized traversal with a caller-supplied registry does not report every path'}
+  if real.get('late_registration', True) is not True:
+    return {'what': 'a node type registered after a first lookup is not traversed by a registry that falls '
+            'back on the registry it was registered in', 'observed': real['late_registration']}
   if real.get('registry_memo_subset') is False:
     return {'what': 'memoized traversal with a caller-supplied registry reports invalid paths'}
   if not real['rebuild_equal'] or not real['rebuild_ddict_ok']:
